@@ -562,6 +562,13 @@ def s4(chk: Check, proj: Project, m) -> None:
         ec, ee = _codec(enc_call)
         lossless = de in ("surrogateescape",) and ee == de and dc == ec
         single_byte = dc == ec and dc in ("latin-1", "latin1", "iso-8859-1") and de is None and ee is None
+        # ... AND the encode side must be total on what the helper inserts: the collected tags are arbitrary Unicode text
+        # (a component's own JS / CSS), which a single-byte codec cannot encode
+        total = ec in ("utf-8", "utf8", "u8", "utf-16", "utf-32")
+        chk.ob("S4", "dependencies:render_dependencies:encode-is-total-on-inserted-text", m.loc(enc_call), total,
+               f"encode({ec!r}) can encode every character of the inserted <script> / <style> text" if total else
+               f"`{short(enc_call)}`: {ec} maps the document's bytes back 1:1, but the text inserted at the default locations is real Unicode (the components' own JS / CSS, decoded from UTF-8): a component whose script contains a character outside {ec} (`€`, `→`) makes render_dependencies raise UnicodeEncodeError - or, for characters inside it, changes their bytes - on every page that relies on the default locations")
+        single_byte = single_byte and total
         chk.ob("S4", "dependencies:render_dependencies:decode-encode-round-trips-any-bytes", m.loc(a0), lossless or single_byte,
                f"decode({dc!r}, errors={de!r}) / encode({ec!r}, errors={ee!r}) restore every input byte" if lossless or single_byte else
                f"`{short(a0)}` is a strict decode: bytes that are not valid {dc.upper()} (render_dependencies(b'caf\\xe9</body>'), a latin-1 or otherwise encoded text/html response through the middleware) raise UnicodeDecodeError in document mode whenever a placeholder kind is absent - with both placeholders present the same bytes pass")
@@ -615,6 +622,28 @@ def s5(chk: Check, proj: Project, m, rule: str = "S5") -> None:
     else:
         chk.ob(rule, "dependencies:middleware:gate-not-narrower", m.loc(s), not meta, "the gate has no further condition: every non-streaming text/html response is processed" if not meta else
                f"the gate also requires `{short(meta[0])}` (response metadata): HTML responses it excludes (error pages, 4xx form re-renders) keep their <!-- _RENDERED --> markers and get no JS/CSS")
+    # every OTHER write to the response (headers, attributes, cookies) stands under the same gate: a response the gate excludes
+    # passes through untouched, headers included
+    rp = params(f)[1] if len(params(f)) > 1 else "response"
+    MUT = {"setdefault", "set_cookie", "delete_cookie", "set_signed_cookie", "write", "writelines", "flush", "close", "__setitem__", "__delitem__", "pop"}
+    writes = []
+    for x in ast.walk(f):
+        if isinstance(x, (ast.Assign, ast.AugAssign, ast.Delete)):
+            tg = x.targets if isinstance(x, (ast.Assign, ast.Delete)) else [x.target]
+            for t in tg:
+                if isinstance(t, (ast.Attribute, ast.Subscript)) and isinstance(t.value, ast.Name) and t.value.id == rp and x is not s:
+                    writes.append(x)
+                if isinstance(t, ast.Subscript) and isinstance(t.value, ast.Attribute) and isinstance(t.value.value, ast.Name) and t.value.value.id == rp:
+                    writes.append(x)
+        elif isinstance(x, ast.Call) and isinstance(x.func, ast.Attribute) and x.func.attr in MUT and ((isinstance(x.func.value, ast.Name) and x.func.value.id == rp) or (isinstance(x.func.value, ast.Attribute) and isinstance(x.func.value.value, ast.Name) and x.func.value.value.id == rp)):
+            writes.append(x)
+    for wr in writes:
+        at2 = flatten_conj(path_conditions(wr if isinstance(wr, ast.stmt) else enclosing_stmt(wr)))
+        ns2 = any((not pol) and isinstance(e, ast.Call) and norm(e.func) == "isinstance" and "StreamingHttpResponse" in norm(e) for e, pol in at2)
+        h2 = any(pol and isinstance(e, ast.Call) and isinstance(e.func, ast.Attribute) and e.func.attr == "startswith" and e.args and isinstance(e.args[0], ast.Constant) and e.args[0].value == "text/html" for e, pol in at2)
+        chk.ob(rule, f"dependencies:middleware:{short(wr, 50)}:under-the-gate", m.loc(wr), ns2 and h2,
+               "stands under the not-streaming / text/html gate" if ns2 and h2 else
+               f"`{short(wr)}` changes the response outside the `text/html` gate: a non-HTML buffered response (a download's answer to HEAD, a 206 with an explicit Content-Length, JSON) no longer passes through untouched - its header is rewritten from the length the view declared to len(body)")
     rc = s.value
     ok = isinstance(rc, ast.Call) and last_attr(rc.func) == "render_dependencies" and rc.args and norm(rc.args[0]).endswith(".content")
     chk.ob(rule, "dependencies:middleware:calls-render_dependencies", m.loc(s), ok, "content := render_dependencies(content, type='document')")
